@@ -28,7 +28,7 @@ inductive Out (K V : Type) where
   | bool (b : Bool)
   | int (n : Int)
   | list (l : List (K × V))
-  deriving Repr
+  deriving Repr, DecidableEq
 
 /-- the operations of one implementation -/
 structure Impl (K V σ T : Type) where
